@@ -38,12 +38,13 @@ def mrec(prefix, uri_prefix, psyn=(), usyn=(), pattern=None) -> MRec:
 class Model:
     """The model converter."""
 
-    def __init__(self, records: Iterable[MRec] = (), delimiter: str = ":"):
+    def __init__(self, records: Iterable[MRec] = (), delimiter: str = ":", hook=None):
         self.records = list(records)
         self.delimiter = delimiter
+        self.hook = hook   # documented extension point standardize_identifier(prefix, identifier) -> str | None
 
     def copy(self) -> "Model":
-        return Model(list(self.records), self.delimiter)
+        return Model(list(self.records), self.delimiter, self.hook)
 
     # -- validity -------------------------------------------------------------------------------------------
     def clashes(self):
@@ -125,17 +126,22 @@ class Model:
         r = self.owner(parts[0])
         if r is None:
             return None
-        return (r.prefix, parts[1])
+        ident = parts[1]
+        if self.hook is not None:
+            ident = self.hook(r.prefix, ident)
+            if ident is None:
+                return None
+        return (r.prefix, ident)
 
     def expand_pair(self, prefix, identifier):
         r = self.owner(prefix)
         return None if r is None else r.uri_prefix + identifier
 
     def expand(self, curie):
-        parts = self.split(curie)
-        if parts is None:
+        ref = self.parse_curie(curie)
+        if ref is None:
             return None
-        return self.expand_pair(*parts)
+        return self.expand_pair(*ref)
 
     def expand_pair_all(self, prefix, identifier):
         """(first, multiset-of-rest) or None."""
@@ -145,10 +151,10 @@ class Model:
         return r.uri_prefix + identifier, sorted(u + identifier for u in r.usyn)
 
     def expand_all(self, curie):
-        parts = self.split(curie)
-        if parts is None:
+        ref = self.parse_curie(curie)
+        if ref is None:
             return None
-        return self.expand_pair_all(*parts)
+        return self.expand_pair_all(*ref)
 
     def standardize_prefix(self, prefix):
         r = self.owner(prefix)
